@@ -1320,7 +1320,8 @@ def run_one(seed, tier, opts, prop):
     upto = events[:v['op_index'] + 1] if v['op_index'] >= 0 else events[:1]
     case = {'job': job, 'events': upto}
     mini, evals = (minimise(case, prop, v['oracle'], run_id)
-                   if len(out_v) < MAX_MINIMISED_PER_RUN else (case, 0))
+                   if len(out_v) < (1 if kernel.violation_flag_set() else MAX_MINIMISED_PER_RUN)
+                   else (case, 0))
     mr = execute(mini['job'], mini['events'], prop, run_id + 'r')
     mv = [x for x in mr.viols if x['oracle'] == v['oracle']] or [v]
     rep = {'version': 1, 'property': prop, 'engine': 'R', 'run_seed': seed, 'x64': True,
